@@ -29,6 +29,9 @@ func suiteSvc(tier string, r *rng) func(emit func(pureCase)) {
 	return func(emit func(pureCase)) {
 		var one func(word []string)
 		oneR := func(word []string, race bool) {
+			if svcAbort {
+				return
+			}
 			m := newMockMQ()
 			cfg := server.Config{NoHTTP: true}
 			cfg.SetDefault()
@@ -122,7 +125,7 @@ func suiteSvc(tier string, r *rng) func(emit func(pureCase)) {
 							attempt = doHTTP
 						}
 						if !running {
-							serv.Stop(nil)
+							stopB(serv, nil)
 							attempt()
 						} else {
 							m.closeGate = make(chan struct{})
@@ -141,14 +144,28 @@ func suiteSvc(tier string, r *rng) func(emit func(pureCase)) {
 							<-stopped
 							m.closeGate = nil
 						}
-					} else if op == "stop" {
-						serv.Stop(nil)
-					} else if m.closedH != nil {
-						cause = fmt.Errorf("lost")
-						m.lose(cause)
 					} else {
-						serv.Stop(fmt.Errorf("lost"))
-						cause = fmt.Errorf("lost")
+						// Stop (or the closed handler, which calls it) must return on its own: nobody
+						// is reading the stop channel at this moment
+						fn := func() { serv.Stop(nil) }
+						if op != "stop" {
+							cause = fmt.Errorf("lost")
+							if m.closedH != nil {
+								fn = func() { m.lose(cause) }
+							} else {
+								fn = func() { serv.Stop(cause) }
+							}
+						}
+						returned := make(chan struct{})
+						go func() { fn(); close(returned) }()
+						select {
+						case <-returned:
+						case <-time.After(8 * time.Second):
+							svcAbort = true
+							emit(pureCase{line: "svc " + strings.Join(word, " "), impl: "stop-hangs", noModel: true, class: "hang",
+								specErr: "Stop did not return within 8 s although nothing was in flight (does it wait for a reader of the stop channel?)"})
+							return
+						}
 					}
 					if !running {
 						outs = append(outs, "stopNoop")
@@ -202,7 +219,7 @@ func suiteSvc(tier string, r *rng) func(emit func(pureCase)) {
 					doHTTP()
 				}
 			}
-			serv.Stop(nil)
+			stopB(serv, nil)
 			key := ""
 			if race && specErr != "" {
 				key = "socket-survives-stop-during-upgrade"
@@ -260,11 +277,36 @@ func suiteSvc(tier string, r *rng) func(emit func(pureCase)) {
 	}
 }
 
+// stopB runs Stop with a bound: a Stop that never returns (for example because it waits for a
+// reader of the stop channel) must show as a violation, not as a hang of the harness.
+var svcAbort bool // a Stop hung: the remaining cases of the suite are skipped
+
+func stopB(serv *server.Service, cause error) bool {
+	if svcAbort {
+		return false
+	}
+	returned := make(chan struct{})
+	go func() { serv.Stop(cause); close(returned) }()
+	select {
+	case <-returned:
+		return true
+	case <-time.After(8 * time.Second):
+		svcAbort = true
+		return false
+	}
+}
+
+const stopHangs = "Stop did not return within 8 s although nothing was in flight (does it wait for a reader of the stop channel?)"
+
 // stalledCase: a client sends a request and then stops reading, so the gateway's write to it
 // blocks (the in-memory pipe has no buffer). Stop or connection loss must still close that socket
 // and finish well inside the bounded timeouts; afterwards the client can read nothing any more.
 func stalledCase(how string) pureCase {
 	pc := pureCase{line: "svc-stalled " + how, noModel: true, class: "stalled"}
+	if svcAbort {
+		pc.impl = "skipped"
+		return pc
+	}
 	m := newMockMQ()
 	cfg := server.Config{NoHTTP: true}
 	cfg.SetDefault()
@@ -285,7 +327,7 @@ func stalledCase(how string) pureCase {
 	if err != nil {
 		pc.impl = "connect-refused"
 		pc.specErr = "connect refused on a running service"
-		serv.Stop(nil)
+		stopB(serv, nil)
 		return pc
 	}
 	defer ws.Close()
@@ -296,7 +338,7 @@ func stalledCase(how string) pureCase {
 	done := make(chan struct{})
 	go func() {
 		if how == "stop" {
-			serv.Stop(nil)
+			stopB(serv, nil)
 		} else {
 			m.lose(fmt.Errorf("lost"))
 		}
@@ -328,6 +370,10 @@ func stalledCase(how string) pureCase {
 // subscription on the new messaging connection), not from the cache of the first run.
 func restartCase(how string) pureCase {
 	pc := pureCase{line: "svc-restart " + how, noModel: true, class: "restart"}
+	if svcAbort {
+		pc.impl = "skipped"
+		return pc
+	}
 	m := newMockMQ()
 	cfg := server.Config{NoHTTP: true}
 	cfg.SetDefault()
@@ -393,9 +439,20 @@ func restartCase(how string) pureCase {
 	}
 	first, _ := subscribeOnce()
 	if how == "stop" {
-		serv.Stop(nil)
+		if !stopB(serv, nil) {
+			pc.impl, pc.specErr = "stop-hangs", stopHangs
+			return pc
+		}
 	} else if m.closedH != nil {
-		m.lose(fmt.Errorf("lost"))
+		returned := make(chan struct{})
+		go func() { m.lose(fmt.Errorf("lost")); close(returned) }()
+		select {
+		case <-returned:
+		case <-time.After(8 * time.Second):
+			svcAbort = true
+			pc.impl, pc.specErr = "stop-hangs", stopHangs
+			return pc
+		}
 	}
 	rev = 2
 	if err := serv.Start(); err != nil {
@@ -404,7 +461,7 @@ func restartCase(how string) pureCase {
 		return pc
 	}
 	second, seen := subscribeOnce()
-	serv.Stop(nil)
+	stopB(serv, nil)
 	has := func(x string) bool {
 		for _, s := range seen {
 			if s == x {
